@@ -1,7 +1,8 @@
 """C17 - XML serializer output re-parses to the same namespaced tree.
 
-proof      : coq/Props/C17.v (declaration adequacy outside the finding classes, reversible escaping,
-             token-level round trip; refutation witnesses for the findings)
+proof      : coq/Props/C17.v (declaration adequacy outside the finding classes, reversible escaping, the
+             round trip at token level for parser-shaped documents outside the finding classes
+             (C17_roundtrip_partial); refutation witnesses for the findings)
 tie        : correspondence - (1) tree -> characters: model serializer vs xml5ever::serialize on the
              implementation's own trees; (2) the tokens the model's items denote vs the token stream
              recorded when the implementation re-parses its own output; (3) model tree builder on
@@ -336,7 +337,9 @@ def run(ck):
                  "Extraction (ExtrOcamlBasic only) + ocamlopt 4.13.1",
                  "ocaml/xmlns_driver.ml, ocaml/conv.ml, harness/src/bin/xmlns.rs, lib/checks/c16.py + c17.py generator, "
                  "canonical tree printer and reference serializer (used only to name the root cause of a failure)",
-                 "the lexing of tags/attributes of the serializer's output by the XML tokenizer (tested by the item "
-                 "denotation correspondence, not modelled in Coq)"],
+                 "the lexing of tags/attributes/comments/PIs of the serializer's output by the XML tokenizer (tested by "
+                 "the item denotation correspondence, not modelled in Coq; text and attribute values are modelled)",
+                 "parsed trees satisfy the shape hypotheses of C17_roundtrip_partial (tested: stats.theorem_applies "
+                 "vs stats.model_roundtrip_expected, not proved)"],
         assumptions=["doctype public/system ids are outside the serializer API and excluded from the comparison",
                      "trees are those produced by the XML parser (RcDom): no adjacent and no empty text nodes"])
